@@ -23,6 +23,17 @@ def stop_scripts(rnd, n_extra):
                 out.append({"id": "stop-%s-%s-%d" % (name, load, stop_after), "keys": 2, "memWindow": 2 if load == "window-full" else 0,
                             "gens": [{"upstream": ups, "clients": clients, "stopAfterMs": stop_after},
                                      {"upstream": [], "clients": [{"n": 1, "pauseEvery": 0, "pauseMs": 0, "delayMs": 0}], "stopAfterMs": 10, "drain": True}]})
+    # the same through the agent's own main path (run.Run in a child process, SIGTERM): a subset of the grid, open connections
+    for name in ("healthy", "refusing", "silent"):
+        for load in ("open-chunk", "pending"):
+            base = [s for s in out if s["id"] == "stop-%s-%s-25" % (name, load)][0]
+            s2 = json.loads(json.dumps(base))
+            s2["id"] = "main-" + base["id"]
+            s2["viaRun"] = True
+            if load == "open-chunk":
+                s2["gens"][0]["clients"][0]["keepOpen"] = True
+                s2["gens"][0]["inputFlushMs"] = 400
+            out.append(s2)
     for j in range(n_extra):
         out.append(A.random_script("rnd%d" % j, rnd))
     return out
